@@ -173,7 +173,7 @@ fn convert_dockerignore_glob(glob: &str, file_path: &Path) -> Result<Regex, Erro
     #[cfg(not(windows))]
     let path = file_path.to_string_lossy().to_string();
 
-    pattern = path.replace("\\", "\\\\").add("/([^/]+/)*").add(&pattern);
+    pattern = regex::escape(&path).add("/([^/]+/)*").add(&pattern);
 
     Regex::new(&pattern)
 }
